@@ -30,3 +30,14 @@ Print Assumptions C19_script_error_local.
 (* non-vacuity: in a normal run the same scripts do mutate *)
 Example C19_normal_run_mutates : run_script sandbox_calls false ["imageCopy"; "tagDelete"; "manifestHead"] = ["ImageCopy"; "TagDelete"].
 Proof. vm_compute. reflexivity. Qed.
+
+(* "read-only functions behave exactly as in a normal run": in the generated table no sandbox function that makes no
+   state-changing RegClient call has a dry-run gate in front of any of its calls (so the mode cannot change what it does) *)
+Definition fn_mutates (table : list sbcall) (fn : String.string) : bool :=
+  existsb (fun c => String.eqb (sc_fn c) fn && sc_mutating c) table.
+Theorem C19_read_only_functions_ungated : forall c, In c sandbox_calls -> fn_mutates sandbox_calls (sc_fn c) = false -> sc_gated c = false.
+Proof.
+  assert (H : forallb (fun c => implb (negb (fn_mutates sandbox_calls (sc_fn c))) (negb (sc_gated c))) sandbox_calls = true) by (vm_compute; reflexivity).
+  intros c Hin Hm. rewrite forallb_forall in H. specialize (H c Hin). rewrite Hm in H. cbn in H. now destruct (sc_gated c).
+Qed.
+Print Assumptions C19_read_only_functions_ungated.
